@@ -13,6 +13,7 @@ import GeoVerif.Properties.C08
 import GeoVerif.Properties.C03
 import GeoVerif.Properties.C04
 import GeoVerif.Properties.C09
+import GeoVerif.Properties.C10
 import GeoVerif.Properties.C11
 import GeoVerif.Properties.C12
 import GeoVerif.Properties.C13
